@@ -69,7 +69,7 @@ PROPS = {
     'C03': dict(fams=['hash_placement', 'rebase_pairs', 'intra', 'versions', 'crud', 'fault', 'par'], views=['obs'],
                 oracles=['memo', 'root'], pyref=True, filt=lambda k, o: k == 'R' and o in ROOT_OPS, twin='hash',
                 key=lambda ops: sum(o.startswith('hash') for o in ops) >= 2),
-    'C04': dict(fams=['versions', 'rebase_pairs', 'hash_placement', 'intra'], views=['obs'], oracles=['isolation', 'memo'],
+    'C04': dict(fams=['versions', 'rebase_pairs', 'hash_placement', 'intra', 'eq_stable'], views=['obs'], oracles=['isolation', 'memo'],
                 pyref=False, filt=lambda k, o: False,
                 key=lambda ops: any(o.startswith(('clone', 'to_vector', 'to_list', 'rebase')) for o in ops)),
     'C05': dict(fams=['capacity', 'codec', 'bulk', 'invalid_args'], views=['obs'], oracles=['capacity'], pyref=True,
@@ -95,9 +95,9 @@ PROPS = {
     'C11': dict(fams=['suffix', 'crud'], views=['obs', 'shape'], vops=POP_OPS, oracles=['suffix', 'canonical'], oops=SUFFIX_OPS,
                 pyref=False, filt=lambda k, o: (k == 'R' and o in SUFFIX_OPS and o != 'level_iter') or (k == 'O' and o in POP_OPS),
                 key=lambda ops: any(o.split()[0] in SUFFIX_OPS for o in ops)),
-    'C12': dict(fams=['codec', 'crud', 'versions'], views=['obs'], oracles=['ssz'], pyref=True,
+    'C12': dict(fams=['codec', 'crud', 'versions', 'roundtrip'], views=['obs'], oracles=['ssz', 'roundtrip_ssz'], pyref=True,
                 filt=lambda k, o: k == 'R' and o in SSZ_OPS, key=lambda ops: any(o.split()[0] in SSZ_OPS for o in ops)),
-    'C13': dict(fams=['codec', 'crud'], views=['obs'], oracles=['serde'], pyref=True,
+    'C13': dict(fams=['codec', 'crud', 'roundtrip'], views=['obs'], oracles=['serde', 'roundtrip_serde'], pyref=True,
                 filt=lambda k, o: k == 'R' and o in SERDE_OPS, key=lambda ops: any(o.split()[0] in SERDE_OPS for o in ops)),
     'C14': dict(fams=['crud', 'versions', 'bulk', 'suffix', 'codec'], views=['obs'], oracles=[], pyref=False,
                 filt=lambda k, o: False, key=lambda ops: True, lockstep=True),
